@@ -1,4 +1,5 @@
 SPEC = dict(
+    aux_kinds=['vt '],   # streams that call unexported helpers directly; skipped (UNAVAILABLE) when those are renamed
     harness="verif_c31",
     model="C31",
     uses_hashes=True,
